@@ -108,7 +108,8 @@ func ListDir(dir string) []os.FileInfo {
 // whether it should be zipped(true) or not(false).
 // The recursive param indicates whether sub-folders should be added recursively or not
 func ZipFolder(srcDir, destFile string, testFunc func(string) bool, recursive bool) error {
-	srcDir = ensureDirName(srcDir)
+	// filepath.Walk reports cleaned paths, so the names of the entries must be cut off the cleaned srcDir
+	srcDir = filepath.Clean(srcDir)
 	f, err := os.Create(destFile)
 	if err != nil {
 		return fmt.Errorf("ZipFolder: could not create %s for write, err=%w", destFile, err)
@@ -129,16 +130,16 @@ func ZipFolder(srcDir, destFile string, testFunc func(string) bool, recursive bo
 			return nil
 		}
 
-		if !recursive {
-			dir, _ := filepath.Split(path)
-			dir = ensureDirName(dir)
-			if dir != srcDir {
-				// skipping subfolders
-				return nil
-			}
+		if !recursive && filepath.Dir(path) != srcDir {
+			// skipping subfolders
+			return nil
 		}
 
-		dstFileName := path[len(srcDir):]
+		rel, err := filepath.Rel(srcDir, path)
+		if err != nil {
+			return fmt.Errorf("ZipFolder: could not make %s relative to %s, err=%w", path, srcDir, err)
+		}
+		dstFileName := string(filepath.Separator) + rel
 		out, err := w.Create(dstFileName)
 		if err != nil {
 			return fmt.Errorf("ZipFolder: could not write %s into %s, err=%w", path, dstFileName, err)
